@@ -43,8 +43,19 @@ struct LockDriver : vrt::Driver {
   std::optional<OG> o[kMaxGuards];
   std::optional<CG> c[kMaxGuards];
   const char *cls;
+  bool ever_s[kMaxGuards] = {}, ever_i[kMaxGuards] = {}, ever_x[kMaxGuards] = {};
 
   explicit LockDriver(const char *cls_name) : cls{cls_name} {}
+
+  void
+  Latch()
+  {
+    for (int g = 0; g < kMaxGuards; ++g) {
+      ever_s[g] = ever_s[g] || (s[g].has_value() && static_cast<bool>(*s[g]));
+      ever_i[g] = ever_i[g] || (i[g].has_value() && static_cast<bool>(*i[g]));
+      ever_x[g] = ever_x[g] || (x[g].has_value() && static_cast<bool>(*x[g]));
+    }
+  }
 
   void
   Setup(const vrt::Program &) override
@@ -66,7 +77,14 @@ struct LockDriver : vrt::Driver {
   }
 
   void
-  RunOp(const vrt::Program &, int t, const vrt::Op &op) override
+  RunOp(const vrt::Program &p, int t, const vrt::Op &op) override
+  {
+    RunOp1(p, t, op);
+    Latch();
+  }
+
+  void
+  RunOp1(const vrt::Program &, int t, const vrt::Op &op)
   {
     const std::string &k = op.f[0];
     auto g1 = [&] { return Num(op.f[1]); };
@@ -159,11 +177,13 @@ struct LockDriver : vrt::Driver {
       // harness-level wait for a guard created by another thread (guard hand-over programs)
       int g = g1();
       char ty = op.f[1][0];
+      // latched: the guard exists or has existed (a waiter that is late must not miss it)
       auto has = [&] {
+        Latch();
         switch (ty) {
-          case 's': return s[g].has_value();
-          case 'i': return i[g].has_value();
-          case 'x': return x[g].has_value();
+          case 's': return ever_s[g];
+          case 'i': return ever_i[g];
+          case 'x': return ever_x[g];
           default: return true;
         }
       };
